@@ -499,3 +499,87 @@ impl crate::engine::IntegerDomainIterator<'_> {
         result
     }
 }
+
+// ---------------------------------------------------------------------------------------------
+// S7 (Kani only): the trailed integers of `TrailedAssignments` in a fixed array with one
+// snapshot level. Contract: `grow` hands out fresh cells, `read` returns the last value written,
+// `synchronise(0)` restores the values of the last `increase_decision_level`. (The real structure
+// is a `KeyedVec<i64>` plus a trail of changes pushed under symbolic conditions; the backtracking
+// harnesses ran out of memory with it.)
+// ---------------------------------------------------------------------------------------------
+#[cfg(kani)]
+pub(crate) mod trailed {
+    use crate::containers::StorageKey;
+    use crate::engine::TrailedAssignments;
+    use crate::engine::TrailedInt;
+
+    const NT: usize = 6;
+    static mut CELL: [i64; NT] = [0; NT];
+    static mut SAVED: [i64; NT] = [0; NT];
+    static mut USED: usize = 0;
+
+    #[inline(always)]
+    fn get(i: usize) -> i64 {
+        unsafe {
+            match i {
+                0 => CELL[0],
+                1 => CELL[1],
+                2 => CELL[2],
+                3 => CELL[3],
+                4 => CELL[4],
+                _ => CELL[5],
+            }
+        }
+    }
+
+    #[inline(always)]
+    fn set(i: usize, v: i64) {
+        unsafe {
+            match i {
+                0 => CELL[0] = v,
+                1 => CELL[1] = v,
+                2 => CELL[2] = v,
+                3 => CELL[3] = v,
+                4 => CELL[4] = v,
+                _ => CELL[5] = v,
+            }
+        }
+    }
+
+    impl TrailedAssignments {
+        pub(crate) fn stub_grow(&mut self, initial_value: i64) -> TrailedInt {
+            unsafe {
+                assert!(USED < NT, "[HARNESS] more trailed integers than the shadow store holds");
+                let index = USED;
+                USED += 1;
+                set(index, initial_value);
+                TrailedInt::create_from_index(index)
+            }
+        }
+
+        pub(crate) fn stub_read(&self, stateful_int: TrailedInt) -> i64 {
+            get(stateful_int.index())
+        }
+
+        pub(crate) fn stub_add_assign(&mut self, stateful_int: TrailedInt, addition: i64) {
+            let i = stateful_int.index();
+            set(i, get(i) + addition);
+        }
+
+        pub(crate) fn stub_assign(&mut self, stateful_int: TrailedInt, value: i64) {
+            set(stateful_int.index(), value);
+        }
+
+        pub(crate) fn stub_increase_decision_level(&mut self) {
+            unsafe {
+                SAVED = CELL;
+            }
+        }
+
+        pub(crate) fn stub_synchronise(&mut self, _new_decision_level: usize) {
+            unsafe {
+                CELL = SAVED;
+            }
+        }
+    }
+}
